@@ -188,6 +188,13 @@ pub fn kvs_linearizability(seed: u64, worker: usize, slot: &Slot) {
                                     ws.push((k, Some(id)));
                                 }
                             }
+                            if rng.chance(1, 6) {
+                                // name one of the batch's keys a second time: the last entry wins
+                                let k = ws[rng.usize_below(ws.len())].0;
+                                let id = next_id.fetch_add(1, Ordering::SeqCst);
+                                wb.put(&key(k), &value(id, 24));
+                                ws.push((k, Some(id)));
+                            }
                             kvs.write(wb).unwrap_or_else(|e| violation("write-error", format!("{e}")));
                             LOp::Write(ws)
                         }
